@@ -43,6 +43,10 @@ def contracts():
     cs += common.shared(X_ctor, ['core.Pipe.__init__', 'core.Val.__init__', 'core.Spec.__init__', 'core.Ref.__init__', 'core.Auto.__init__', 'core.Fill.__init__',
                                  'core.Invoke.__init__'])
     cs += common.shared(C17, ['core.Invoke.constants', 'core.Invoke.specs', 'core.Invoke.star'])
+    # Call arguments and Coalesce defaults are argument-evaluated with a fresh valuator per evaluation (shared with C08)
+    from contracts import C08
+    cs += common.shared(C08, ['core.arg_val', 'core._ArgValuator.mode'])
+    cs += common.shared(X_ctor, ['core._ArgValuator.__init__'])
     return cs
 
 
